@@ -17,7 +17,7 @@ ASSUMPTIONS = ["ids are duplicate-free (stated); dictionary values are distinct 
 BOUNDS = {"quick": "as in rule", "thorough": "as quick + length 4 with all four bounds, contexts of length 5"}
 IDS = ["a", "b", "ü", 7, 0, "7"]      # the int 7 next to the str "7": ids that coincide after a str() coercion
 # (0,1), (-2,3) and (-1,3) have equal hash(lower)+hash(upper) (hash(-1) == -2): anything keyed by the hash of a variable confuses them
-BMENU = [(0, 1), (-2, 3), (-2, 5), (1, 1), (3, 3), (-1, 3)]
+BMENU = [(0, 1), (-2, 3), (-2, 5), (1, 1), (3, 3), (-1, 3), (1, 2), (-1, 0)]      # the last two: width 1 like a boolean, but not (0,1)
 # distinct values so that permutations are visible; one of them is 0 (a given 0 is a value, not "missing")
 VAL = {"a": 11, "b": 0, "ü": 13, 7: -14, 0: -15, "7": 17, "zz": 99}
 
